@@ -1,6 +1,7 @@
 /* c18_bitmap.h - bitmap scenarios of the C18 harness: a 65536-bit model, the
- * container-state builder (ARRAY / BITMAP / RUNS, 4096 edges) and one
- * scenario per allocating bitmap API */
+ * pre-state builder (construction recipes that, in the present library, end
+ * in ARRAY / BITMAP / RUNS containers and at the 4096 edges; the container
+ * itself is never inspected) and one scenario per allocating bitmap API */
 #ifndef C18_BITMAP_H
 #define C18_BITMAP_H
 #include "c18_common.h"
@@ -165,9 +166,20 @@ static void state_model(const bmstate *s, bset *m) {
     }
 }
 
-/* builds the object with fault-free library calls; NULL if that fails */
+/* builds the object with fault-free library calls; NULL if that fails.
+ * The state names say how the object is made, which is all the harness knows:
+ * whether the library then holds it as an array, a bit vector or runs is its
+ * own business and never enters a verdict (every verdict reads the object
+ * through iterator / cardinality / contains, see bm_read, bm_consistent). */
 static varintBitmap *state_build(const bmstate *s) {
     if (s->kind == BS_RUNS_SMALL || s->kind == BS_RUNS_LARGE) {
+        /* GENERATOR knowledge: bytes in the run wire form of the time of
+         * writing, the only known way to make the decoder hand out a
+         * multi-run object.  They are input like any other: if the decoder
+         * rejects them, or makes another set of them than the model says
+         * (e.g. after a format change), the fault-free run notices and the
+         * case is skipped as baseline-unusable - no verdict rests on them
+         * being a "valid encoding". */
         uint8_t enc[9 + 16];
         uint32_t card = 0;
         for (uint32_t i = 0; i < s->nruns; i++) {
